@@ -711,11 +711,6 @@ class Runner:
 
     def run_text(self, text, files=None, limit=10, keep=False):
         """-> (ProgramRun, timed_out, dir)"""
-        if self.is_unsafe(text, files):
-            # not run: reported as a syntactically rejected case would be (the caller counts them)
-            self.skipped_unsafe += 1
-            d = self.new_dir()
-            return impl.ProgramRun(65, 'SYNTAX_ERROR\n', 'In [harness]\nnot run: the generated case names a path outside the scratch directory\n', None), False, d
         d = self.new_dir()
         text = text.replace('{DIR}', os.path.basename(d)).replace('{ABS}', d)
         for name, contents in (files or {}).items():
@@ -1223,7 +1218,8 @@ def replay(ctx, payload):
         files = dict(HOME_FILES)
         if case.get('kind') == 'replacement template':
             files['in.txt'] = 'ab a\n'
-        term, info, finding, o = run_one_fuzz(runner, text, common.Result(), 'replay')
+        extra = {k: (tuple(v) if isinstance(v, list) else v) for k, v in (case.get('extra_files') or {}).items()}
+        term, info, finding, o = run_one_fuzz(runner, text, common.Result(), 'replay', None, extra or None)
     finally:
         runner.close()
     print('stored observation :', json.dumps(case.get('observed'), default=str)[:1500])
@@ -2358,6 +2354,9 @@ def run_one_fuzz(runner, text, res, label, offending=None, files=None):
             'observed': {'exit': code, 'identifier': ident, 'exception': None if pr.exception is None else repr(pr.exception)[:300],
                          'timeout': to, 'stderr_tail': pr.err[-700:]},
             'document_parser': 'returned a document' if pex is None else type(pex).__name__}
+    if files:
+        # {DIR} / {ABS} in the texts = name / absolute path of the directory the case is run in
+        info['extra_files'] = {k: (list(v) if isinstance(v, tuple) else v) for k, v in files.items()}
     finding = None
     internal = ident == 'INTERNAL_ERROR'
     last = pr.err.strip().splitlines()[-1] if pr.err.strip() else ''
@@ -2577,7 +2576,7 @@ def run_fuzz(ctx, res, runner):
     def one(text, label, offending=None, files=None):
         term, info, finding, o = run_one_fuzz(runner, text, res, label, offending, files)
         if term is None:
-            return (None, None, None, False)
+            return None
         terms.append(term)
         meta.append(info)
         findings.append(finding)
@@ -2586,7 +2585,7 @@ def run_fuzz(ctx, res, runner):
 
     for name, text, expect, ident in [c + (None,) for c in CORPUS_CASES] + corpus_files():
         o = one(text, 'corpus: ' + name)
-        if o[0] is None and o[1] is None and o[2] is None and not o[3] and (not findings or meta[-1]['mutation'] != 'corpus: ' + name):
+        if o is None:
             continue
         if ident is not None and o[1] != ident:
             # a stored regression input no longer ends the way it did when it was stored: worth a look, but only P_C18 decides
